@@ -364,6 +364,121 @@ func runC17(e *Env) {
 	if nDirect == 0 && len(renames) == 0 {
 		r.Bad("E3.publish", D+"/publish", p.Pos(fn.Pos()), "the cache path is neither created directly nor published by os.Rename: the writer was not recognised")
 	}
+	// the file that is renamed into place belongs to this run alone: it was created by os.CreateTemp (a fresh, unique name)
+	// or with O_EXCL. Under a fixed temporary name two overlapping runs write into one file, and the first to finish
+	// publishes a mixture that carries the valid hash line.
+	for _, rn := range renames {
+		src := rn.Call.Args[0]
+		key := load.FuncName(rn.Parent()) + "/temp-file-is-this-run's"
+		var fromTemp func(v ssa.Value, depth int) bool
+		fromTemp = func(v ssa.Value, depth int) bool {
+			if depth > 4 {
+				return false
+			}
+			switch x := v.(type) {
+			case *ssa.Extract:
+				if c, ok := x.Tuple.(*ssa.Call); ok && x.Index == 0 {
+					return flow.CalleeIs(c, "os", "CreateTemp") || flow.CalleeIs(c, "io/ioutil", "TempFile")
+				}
+			case *ssa.Phi:
+				for _, ed := range x.Edges {
+					if !fromTemp(ed, depth+1) {
+						return false
+					}
+				}
+				return len(x.Edges) > 0
+			case *ssa.Parameter:
+				// the file is handed to a helper: at every call site
+				fn := x.Parent()
+				idx := -1
+				for i, q := range fn.Params {
+					if q == x {
+						idx = i
+					}
+				}
+				n := 0
+				for _, f := range p.SrcFuncs(load.PkgProfiler) {
+					for _, c := range flow.Calls(f) {
+						if c.Common().StaticCallee() != fn || idx < 0 || idx >= len(c.Common().Args) {
+							continue
+						}
+						n++
+						if !fromTemp(c.Common().Args[idx], depth+1) {
+							return false
+						}
+					}
+				}
+				return n > 0
+			case *ssa.UnOp:
+				// a variable shared with a closure: assigned once
+				if x.Op != token.MUL {
+					return false
+				}
+				cell, _ := x.X.(*ssa.Alloc)
+				if fv, ok := x.X.(*ssa.FreeVar); ok {
+					if hk := freeVarCell(fv); hk != nil {
+						cell = hk
+					}
+				}
+				if cell == nil {
+					return false
+				}
+				if st := singleAssignment(cell); st != nil {
+					return fromTemp(st.Val, depth+1)
+				}
+			}
+			return false
+		}
+		unique, fixed := false, ""
+		if nc, ok := src.(*ssa.Call); ok && flow.CalleeIs(nc, "os", "File.Name") && len(nc.Call.Args) == 1 {
+			if fromTemp(nc.Call.Args[0], 0) {
+				unique = true
+			} else if ex, ok := nc.Call.Args[0].(*ssa.Extract); ok && ex.Index == 0 {
+				// f.Name() of a file opened under a computed name
+				if oc, ok := ex.Tuple.(*ssa.Call); ok {
+					switch {
+					case flow.CalleeIs(oc, "os", "OpenFile") && len(oc.Call.Args) >= 2:
+						if k, ok := flow.ConstInt(oc.Call.Args[1]); ok && k&0x80 != 0 { // O_EXCL
+							unique = true
+						} else {
+							fixed = "os.OpenFile without O_EXCL at " + p.Pos(oc.Pos())
+						}
+					case flow.CalleeIs(oc, "os", "Create"):
+						fixed = "os.Create at " + p.Pos(oc.Pos())
+					}
+				}
+			}
+		}
+		if !unique && fixed == "" {
+			srcAl := aliasesOf(p, load.PkgProfiler, src)
+			for _, f := range p.SrcFuncs(load.PkgProfiler) {
+				for _, c := range flow.Calls(f) {
+					args := c.Common().Args
+					if len(args) == 0 || !srcAl[args[0]] {
+						continue
+					}
+					switch {
+					case flow.CalleeIs(c, "os", "OpenFile") && len(args) >= 2:
+						if k, ok := flow.ConstInt(args[1]); ok && k&0x80 != 0 { // O_EXCL
+							unique = true
+						} else {
+							fixed = "os.OpenFile without O_EXCL at " + p.Pos(c.Pos())
+						}
+					case flow.CalleeIs(c, "os", "Create"):
+						fixed = "os.Create at " + p.Pos(c.Pos())
+					}
+				}
+			}
+		}
+		switch {
+		case unique && fixed == "":
+			r.OK("E3.publish", key, p.Pos(rn.Pos()), "the renamed file was created by os.CreateTemp or with O_EXCL: no other run writes into it")
+		case fixed != "":
+			r.Bad("E3.publish", key, p.Pos(rn.Pos()), "the file that is renamed to the cache name is created under a name that is the same for every run ("+fixed+"): two overlapping runs write into one file, and what the first one publishes carries the valid hash line but not its own complete output")
+		default:
+			r.Unknown("E3.publish", key, p.Pos(rn.Pos()), "how the file that is renamed to the cache name was created was not recognised (os.CreateTemp, or OpenFile with O_EXCL)")
+		}
+	}
 	isRun := func(c *ssa.Call) bool {
 		return flow.CalleeIs(c, "os/exec", "Cmd.Run") || flow.CalleeIs(c, "os/exec", "Cmd.Wait") || flow.CalleeIs(c, "os/exec", "Cmd.Output") || flow.CalleeIs(c, "os/exec", "Cmd.CombinedOutput")
 	}
@@ -595,7 +710,7 @@ func checkWholeContentHash(e *Env, p *load.Program, hb *ssa.Function) {
 					continue
 				}
 				n++
-				if flow.CalleeIs(call, "io", "Copy") && ai == 0 && len(com.Args) == 2 && wholeFile(com.Args[1], 0) {
+				if (flow.CalleeIs(call, "io", "Copy") || flow.CalleeIs(call, "io", "CopyBuffer")) && ai == 0 && len(com.Args) >= 2 && wholeFile(com.Args[1], 0) {
 					continue
 				}
 				good, why = false, fmt.Sprintf("the hash is handed to %s, which is not io.Copy from a reader over the whole file", calleeName(call))
@@ -900,4 +1015,34 @@ func deferEstablishes(fn *ssa.Function, isX func(c *ssa.Call) bool) bool {
 		}
 	}
 	return false
+}
+
+// freeVarCell: the variable of the enclosing function a free variable is bound to (when every closure creation binds
+// the same one).
+func freeVarCell(fv *ssa.FreeVar) *ssa.Alloc {
+	fn := fv.Parent()
+	idx := -1
+	for i, q := range fn.FreeVars {
+		if q == fv {
+			idx = i
+		}
+	}
+	if idx < 0 || fn.Parent() == nil {
+		return nil
+	}
+	var cell *ssa.Alloc
+	for _, b := range fn.Parent().Blocks {
+		for _, in := range b.Instrs {
+			mc, ok := in.(*ssa.MakeClosure)
+			if !ok || mc.Fn != ssa.Value(fn) || idx >= len(mc.Bindings) {
+				continue
+			}
+			al, ok := mc.Bindings[idx].(*ssa.Alloc)
+			if !ok || (cell != nil && cell != al) {
+				return nil
+			}
+			cell = al
+		}
+	}
+	return cell
 }
